@@ -223,7 +223,13 @@ def compare_value(expr_at_n, expected, seed=0, digits=40):
     try:
         exp_val = expected.eval(env)
         sub = {s: sympy.Rational(env[str(s)].numerator, env[str(s)].denominator) for s in syms}
-        val = sympy.N(e.xreplace({s: v for s, v in sub.items()}), digits + 20)
+        # strict evaluation: the working precision is raised until digits + 20 significant digits are guaranteed (closed forms
+        # with unsimplified radicals can carry coefficients of several hundred digits that cancel); if that cannot be reached the
+        # value is not judged
+        try:
+            val = e.xreplace({s: v for s, v in sub.items()}).evalf(digits + 20, maxn=60000, strict=True)
+        except sympy.core.evalf.PrecisionExhausted:
+            return "unknown", "numeric", str(e)[:300]
         if val.free_symbols or val.has(sympy.nan) or val.has(sympy.zoo):
             return "unknown", "numeric", str(e)
         target = sympy.Rational(exp_val.numerator, exp_val.denominator)
@@ -247,7 +253,7 @@ def compare_value_rounded(expr_at_n, expected, seed=0, tol=1e-5):
     try:
         exp_val = expected.eval(env)
         sub = {s: sympy.Rational(env[str(s)].numerator, env[str(s)].denominator) for s in syms}
-        val = complex(sympy.N(e.xreplace(sub), 30))
+        val = complex(e.xreplace(sub).evalf(30, maxn=60000, strict=True))
     except Exception:
         return "unknown", "rounded", str(e)[:200]
     if abs(val - float(exp_val)) <= tol * max(1.0, abs(float(exp_val))):
